@@ -259,6 +259,14 @@ def gen_cases(rng, tier):
               "route": "main", "listing": False, "colon_key": True}
       cases.append(case)
       continue
+    if i % 23 == 13:
+      # an item added into a section whose NAME differs from an existing section's only in white space ('Pair ' next to
+      # [Pair]): the file edited by hand would hold two look-alike sections, which is refused
+      names0 = [s_ for s_, _ in emit.model_items(m)]
+      sec_ = rng.choice([x for x in ("Pair", "EAM-Embed", "EAM-Density", "Tabulation") if x in names0] or ["Pair"])
+      ops = [{"op": "add", "section": rng.choice([sec_ + " ", " " + sec_, sec_ + "\t", sec_[:2] + " " + sec_[2:]]), "key": {"Pair": "Qq-Qq", "Tabulation": "comment"}.get(sec_, "Qq"), "value": "as.constant 2.0"}]
+      route = ["main", "api", "cli"][(i // 23) % 3]
+      case = {"model": m, "ops": ops, "route": route, "listing": False, "options_first": False, "lookalike_section": 1}
     if i % 17 == 11:
       # a [Variables] section holding exactly ONE entry, which a definition uses: removing it (the default section of the
       # parser cannot be dropped like another one) leaves the placeholder unresolvable, overriding it changes the table
@@ -270,12 +278,15 @@ def gen_cases(rng, tier):
         k_, v_ = its[ki]
         mm = list(re.finditer(r"(?<![\w.])\d+\.\d+(?![\w.])", v_))[-1]
         its2 = list(its)
-        its2[ki] = (k_, v_[:mm.start()] + "${onlyvar}" + v_[mm.end():])
-        items1 = [["Variables", [["onlyvar", mm.group(0)]]]] + [[a_, [list(x) for x in (its2 if j == si else b_)]] for j, (a_, b_) in enumerate(items0)]
+        nested = (i // 17) % 2 == 1
+        its2[ki] = (k_, v_[:mm.start()] + ("${wrapvar}" if nested else "${onlyvar}") + v_[mm.end():])
+        # nested: the definition uses a variable that is itself written in terms of the one operated on
+        vars_ = [["onlyvar", mm.group(0)]] + ([["wrapvar", "${onlyvar}"]] if nested else [])
+        items1 = [["Variables", vars_]] + [[a_, [list(x) for x in (its2 if j == si else b_)]] for j, (a_, b_) in enumerate(items0)]
         opk = ["remove", "override", "remove"][(i // 17) % 3]
         ops = [{"op": opk, "section": "Variables", "key": "onlyvar", "value": "2.75"}]
         route = ["main", "api", "cli"][(i // 17) % 3]
-        case = {"model": m, "ops": ops, "route": route, "listing": False, "options_first": False, "items_override": items1, "single_variable": 1}
+        case = {"model": m, "ops": ops, "route": route, "listing": False, "options_first": False, "items_override": items1, "single_variable": 2 if nested else 1}
     if i % 13 == 6:
       # a key pasted from a web page or a PDF: white space other than blank / tab INSIDE it (no-break space, thin space,
       # form feed).  The file tabulates as ever; an operation addressed to the key exactly as the file spells it must find
@@ -291,7 +302,7 @@ def gen_cases(rng, tier):
         ops = [{"op": opk, "section": s_, "key": newk, "value": "as.constant %s" % spec.fnum(spec.rfloat(rng, 0.5, 9.0))}]
         route = rng.choice(["main", "main", "cli", "api"])
         case = {"model": m, "ops": ops, "route": route, "listing": False, "options_first": False, "respell": [s_, k_, newk]}
-    if route in ("main", "api") and i % 5 == 4 and not case.get("respell") and not case.get("single_variable"):
+    if route in ("main", "api") and i % 5 == 4 and not case.get("respell") and not case.get("single_variable") and not case.get("lookalike_section"):
       # feature interaction: operations that address [Variables] itself, and an item written as ${VAR} that is
       # overridden with exactly the text it currently expands to ("frozen") while VAR is changed or removed
       case["freeze"] = {"tseed": rng.randrange(1 << 30), "force_last_key": (i // 5) % 2 == 0, "clear_variables": (i // 5) % 4 == 1}
@@ -610,10 +621,12 @@ def run_case(case, ctx):
   ctx.cls("route:" + route)
   ctx.cls("target:" + m["target"])
   ctx.cls("nops:%d" % len(ops))
+  if case.get("lookalike_section"):
+    ctx.cls("item_added_into_a_lookalike_section")
   if case.get("respell"):
     ctx.cls("key_with_exotic_whitespace_inside")
   if case.get("single_variable"):
-    ctx.cls("only_entry_of_variables_" + ops[0]["op"])
+    ctx.cls(("variable_used_through_another_variable_" if case["single_variable"] == 2 else "only_entry_of_variables_") + ops[0]["op"])
   for s_, its in case_items(case):
     rem = [o for o in ops if o["op"] == "remove" and o["section"] == s_]
     if its and len(rem) >= len(its):
